@@ -961,6 +961,8 @@ def one_pair(ctx, st, cfg, label, newsecs, tag, include=()):
         inp['include'] = list(include)
     launch, rundir = cwd_dirs(ctx.scratch)
     dirs = model_dirs(ctx.scratch)
+    if include:      # %(here)s of a section in the included file is the directory of that file: it exists, the model is told so
+        dirs = dirs + [os.path.join(ctx.scratch, 'inc_%s' % tag)]
     path = write_version(cfg['sections'], ctx.scratch, tag, include)
     o = L.make_options(L.ENV_VARS)
     base_env = dict(o.environ_expansions)      # the daemon's own environment: what every read of the file starts with
